@@ -1,7 +1,7 @@
 CONSTANTS
   Streams = {0}
   Paired = FALSE
-  MaxOps = 6
+  MaxOps = 5
   MaxWire = 3
   BarrierBug = FALSE
   ResetLoose = FALSE
